@@ -620,6 +620,11 @@ def azure_open_from(has_len):
     )
 
 
+def native_witness(ctx):
+    """concrete search on the real code, usable when the contracts no longer apply to a changed source (vc/check.py)"""
+    return core.run_native(open(os.path.join(os.path.dirname(__file__), 'native', 'c23_replay.py')).read(), {})
+
+
 def build(ctx):
     for c in [read_range(), read_from()] + open_from() + [router_open_from()] + empty_stream() + [gcs_open_from(True), gcs_open_from(False), s3_open_from(True), s3_open_from(False), truncated_init(), truncated_read(), readexactly_blocking(), read_blocking(), local_open_from(True), local_open_from(False), azure_open_from(True), azure_open_from(False), azure_readexactly()] + [azure_read(v, m) for v in ((True, True), (True, False), (False, False)) for m in ('all', 'some')]:
         e = pyvc.Engine(ctx, c).run()
